@@ -1,5 +1,5 @@
 SPECIFICATION Spec
 CONSTANTS
   Dev = {}
-INVARIANTS CaseInv Emit
+INVARIANTS Emit CaseInv
 CHECK_DEADLOCK FALSE
